@@ -6,6 +6,9 @@
 //!       start | pause | stop | speed <value> <tween>      — `ClockHandle` calls
 //!       osp                             — `Clock::on_start_processing`
 //!       update <dt>                     — `Clock::update(dt, info)`
+//!       tick <v>                        — a fresh clock at `v` ticks per second, started, ONE update of 1 s (the
+//!                                         tick timer is exactly `v`): the tick count `Clock::update` computes at
+//!                                         once is compared with the loop it replaced (`old_tick_loop`)
 //! trace: `[<ret> ]<state> <ticking> <handle.time> <handle.ticking>`
 use crate::runner::{run_cases, Out};
 use crate::suites::param::{gen_dt, gen_tween, gen_value, ids, parse_tween, parse_value, InfoState, MAX_IDS};
@@ -36,6 +39,58 @@ fn tps(s: ClockSpeed) -> f64 {
 	s.as_ticks_per_second()
 }
 
+/// the loop `Clock::update` used to run: `while timer >= 1.0 { timer -= 1.0; ticks += 1 }` — executed for
+/// timers up to 2^22; beyond that (up to 2^53, where `x - 1.0` stops being exact and the loop never ended) its
+/// result is computed exactly from the bits of the timer (every subtraction of 1.0 is exact below 2^53, so the
+/// loop ends with the integer part in `ticks` and the exact fractional part in `timer`)
+fn old_tick_loop(mut timer: f64) -> Option<(u64, f64)> {
+	if !(timer >= 1.0) {
+		return Some((0, timer));
+	}
+	if timer < 4194304.0 {
+		let mut ticks = 0u64;
+		while timer >= 1.0 {
+			timer -= 1.0;
+			ticks += 1;
+		}
+		return Some((ticks, timer));
+	}
+	if timer >= 9007199254740992.0 {
+		return None; // the old loop never ends
+	}
+	let bits = timer.to_bits();
+	let exp = ((bits >> 52) & 0x7ff) as i64 - 1075; // timer = mant * 2^exp, 22 <= exp + 52 < 53
+	let mant = (bits & ((1u64 << 52) - 1)) | (1u64 << 52);
+	let sh = (-exp) as u32;
+	let whole = mant >> sh;
+	let frac_bits = mant & ((1u64 << sh) - 1);
+	Some((whole, frac_bits as f64 / (1u64 << sh) as f64))
+}
+
+/// a speed token `(spt|tps|tpm)=<hex>` that means more than 10^9 ticks per second (or a non-finite number of
+/// them): the tick loop the code used to run takes seconds to for ever on it
+fn risky_speed(l: &str) -> bool {
+	for kind in ["spt=", "tps=", "tpm="] {
+		let mut rest = l;
+		while let Some(i) = rest.find(kind) {
+			let hex = &rest[i + 4..];
+			if hex.len() >= 16 && hex.as_bytes()[..16].iter().all(|b| b.is_ascii_hexdigit()) {
+				let v = p64(&hex[..16]);
+				let t = match kind {
+					"spt=" => 1.0 / v,
+					"tps=" => v,
+					_ => v / 60.0,
+				};
+				if !(t.abs() <= 1e9) {
+					return true;
+				}
+			}
+			rest = &rest[i + 4..];
+		}
+	}
+	false
+}
+
 pub fn run(ops: &[String]) -> Vec<String> {
 	run_cases(ops, None, |case: &[String], out: &mut Out| {
 		let ids = ids();
@@ -46,9 +101,13 @@ pub fn run(ops: &[String]) -> Vec<String> {
 		let mut fixed_tps: Option<f64> = None; // speed known and constant
 		let mut expected: f64 = 0.0; // ideal ticks + fraction
 		let mut stop_pending = false;
-		// a case that sets a speed of 0 seconds per tick is an out-of-domain probe
-		let risky = case.iter().any(|l| l.contains("spt=0000000000000000"));
+		// a case that sets an infinite or enormous speed (0 seconds per tick, 1e300 ticks per second …) used to
+		// hang in the tick loop: its updates run on a helper thread
+		let risky = case.iter().any(|l| l.contains("spt=0000000000000000") || risky_speed(l));
 		let mut speed_desc = String::new();
+		// every speed value given so far (creation value first)
+		let mut speeds: Vec<String> = vec![];
+		let mut nan_reported = false;
 		let mut pending_ticking: Option<bool> = None;
 		// C05 "a speed change or speed tween takes effect when it is due" (due in audio time, whether or not the
 		// clock is ticking): a `speed` command with a fixed target and an immediate / delayed start, written
@@ -71,6 +130,7 @@ pub fn run(ops: &[String]) -> Vec<String> {
 				"new" => {
 					let v: Value<ClockSpeed> = parse_value(tok[1], &ids);
 					speed_desc = tok[1].to_string();
+					speeds = vec![tok[1].to_string()];
 					fixed_tps = match v {
 						Value::Fixed(s) => Some(tps(s)),
 						_ => None,
@@ -109,6 +169,7 @@ pub fn run(ops: &[String]) -> Vec<String> {
 					let v: Value<ClockSpeed> = parse_value(tok[1], &ids);
 					h.set_speed(v, parse_tween(tok[2], &ids));
 					speed_desc = tok[1].to_string();
+					speeds.push(tok[1].to_string());
 					fixed_tps = None;
 					speed_cmd = Some(SpeedDue::parse(tok[1], tok[2]));
 					out.put(show(c, h));
@@ -137,6 +198,38 @@ pub fn run(ops: &[String]) -> Vec<String> {
 						expected = 0.0;
 						if c.state().is_some() {
 							out.oracle_fail("stop_resets", l);
+						}
+					}
+				}
+				"tick" => {
+					let v = p64(tok[1]);
+					let (c, mut h) = HClock::new(Value::Fixed(ClockSpeed::TicksPerSecond(v)));
+					h.start();
+					let (tx, rx) = std::sync::mpsc::channel();
+					std::thread::spawn(move || {
+						let mut c = c;
+						c.on_start_processing();
+						let info = InfoState::default().build();
+						let r = c.update(1.0, &info);
+						let _ = tx.send((c.state(), r));
+					});
+					match rx.recv_timeout(std::time::Duration::from_millis(2000)) {
+						Ok((st, r)) => {
+							out.put(format!("{} {}", r.map(|n| n.to_string()).unwrap_or_else(|| "-".into()), show_state(st)));
+							// where the old loop returned, the new form must agree bit for bit
+							if let Some((t, f)) = old_tick_loop(0.0 + v * 1.0) {
+								let ok = match st {
+									Some((t2, f2)) => t2 == t && f2.to_bits() == f.to_bits() && r == if t > 0 { Some(t) } else { Some(0) },
+									None => false,
+								};
+								if !ok {
+									out.oracle_fail("tick_count_equals_old_loop", l);
+								}
+							}
+						}
+						Err(_) => {
+							out.oracle_fail("update_terminates", format!("fix:tps={} {}", tok[1], l));
+							out.put("fault hang");
 						}
 					}
 				}
@@ -210,11 +303,18 @@ pub fn run(ops: &[String]) -> Vec<String> {
 						}
 					} else {
 						if let Some((_, f)) = c.state() {
-							if !(f >= 0.0 && f < 1.0) {
+							if f.is_nan() {
+								// the clock's time is not a number (and stays so until `stop()`): say which
+								// speed change led there, once per case
+								if !nan_reported {
+									nan_reported = true;
+									out.oracle_fail("clock_time_nan", format!("speeds={} {}", speeds.join(">"), l));
+								}
+							} else if !(f >= 0.0 && f < 1.0) {
 								out.oracle_fail("fraction_in_unit_interval", l);
 							}
 						}
-						if let (Some(v), false) = (fixed_tps, just_settled) {
+						if let (Some(v), false) = (fixed_tps.filter(|v| v.abs() <= 1e9), just_settled) {
 							expected += v * dt;
 							let (t, f) = c.state().unwrap();
 							let val = t as f64 + f;
@@ -299,9 +399,46 @@ pub fn gen(rng: &mut Rng, n: usize, _thorough: bool, stats: &mut Stats) -> Vec<S
 			}
 			out.push(s);
 		}
-		let v = if rng.chance(2, 3) {
+		// tick-count probes: timers below, at and beyond every boundary of the old loop / the new floor form
+		if rng.chance(1, 6) {
+			for _ in 0..rng.range(1, 6) {
+				let v = match rng.below(10) {
+					0 => rng.pick(&[0.0, -0.0, 0.5, 1.0, 0.9999999999999999, 1.0000000000000002, 2.0, 2.5, -1.0, -3.5, 5e-324]),
+					1 => rng.below(1 << 22) as f64 + rng.pick(&[0.0, 0.5, 0.25, 0.999999]),
+					2 => rng.uniform(0.0, 4194304.0),
+					3 => rng.uniform(4194304.0, 9007199254740992.0),
+					4 => f64::from_bits(rng.range(0x4150_0000_0000_0000, 0x433f_ffff_ffff_ffff) as u64),
+					5 => rng.pick(&[4194303.5, 4194304.0, 4194304.5, 4503599627370495.5, 4503599627370496.0, 9007199254740991.0, 9007199254740990.5]),
+					6 => rng.pick(&[9007199254740992.0, 9007199254740994.0, 1.8446744073709552e19, 9.223372036854775808e18, 1e300, f64::MAX]),
+					7 => -rng.pick(&[9007199254740994.0, 1e300, f64::MAX, 1e19]),
+					_ => rng.uniform(0.0, 100.0),
+				};
+				stats.hit("tick");
+				out.push(format!("tick {}", o64(v)));
+			}
+		}
+		let v = if rng.chance(1, 12) {
+			// infinite and enormous speeds (the tick loop used to hang on them: now the count saturates)
+			stats.hit("extreme_speed");
+			let (k, x) = rng.pick(&[
+				("spt", 0.0),
+				("spt", 5e-324),
+				("spt", 1e-300),
+				("spt", -0.0),
+				("tps", 1e300),
+				("tps", 9007199254740994.0),
+				("tps", f64::MAX),
+				("tps", 1e19),
+				("tps", -1e300),
+				("tpm", f64::MAX),
+				("tps", 1e12),
+			]);
+			format!("fix:{}={}", k, o64(x))
+		} else if rng.chance(2, 3) {
 			// round speeds make exact tick boundaries likely
-			let x = rng.pick(&[1.0, 2.0, 0.5, 4.0, 10.0, 120.0, 60.0, 0.25, 100.0]);
+			// (0.0: a clock that stands still — 0 ticks per second / minute; a speed tween away from it used to
+			// make the clock's time NaN; `spt=0` is an infinite speed: such a case is `risky`)
+			let x = rng.pick(&[1.0, 2.0, 0.5, 4.0, 10.0, 120.0, 60.0, 0.25, 100.0, 0.0]);
 			format!("fix:{}", ["spt", "tps", "tpm"][rng.below(3) as usize].to_string() + "=" + &o64(x))
 		} else {
 			gen_value::<ClockSpeed>(rng)
@@ -317,6 +454,21 @@ pub fn gen(rng: &mut Rng, n: usize, _thorough: bool, stats: &mut Stats) -> Vec<S
 				0 => "start".to_string(),
 				1 => "pause".to_string(),
 				2 => "stop".to_string(),
+				// an infinite or enormous speed (only such: the case is then `risky` and runs on the helper thread;
+				// zero-ish speeds are left to `gen_value` — a tween FROM a zero speed to another unit is a separate defect)
+				3 | 4 if rng.chance(1, 10) => {
+					let (k, x) = rng.pick(&[
+						("spt", 0.0),
+						("spt", 5e-324),
+						("spt", 1e-300),
+						("tps", 1e300),
+						("tps", f64::MAX),
+						("tps", 9007199254740994.0),
+						("tpm", f64::MAX),
+						("tps", 1e12),
+					]);
+					format!("speed fix:{}={} {}", k, o64(x), gen_tween(rng))
+				}
 				3 | 4 => format!("speed {} {}", gen_value::<ClockSpeed>(rng), gen_tween(rng)),
 				5..=8 => "osp".to_string(),
 				9 => {
